@@ -489,6 +489,20 @@ static void op_put(World &W, const Json &op) {
         }
     }
     if (bytes_differ(in, data.data(), len)) W.viol("C15", "encode/input-modified", "encode wrote to its input");
+    if (op.has("scribble") && flen > 0) {
+        // the fragments are the caller's until cleanup: a caller that damaged them in place (the usual way to fabricate a bad
+        // fragment) still gets everything released
+        Rng sr((u64) op["scribble"]["seed"].num()); int mode = op["scribble"]["mode"].in(0);
+        for (int i = 0; i < n; i++) {
+            char *f = i < k ? ed[i] : ep[i - k];
+            if (mode != 2 && !sr.chance(1, 2)) continue;
+            if (mode == 0) memset(f + ref::OFF_MAGIC, 0, 4);
+            else if (mode == 1) for (u64 b = 0; b < std::min<u64>(flen, ref::HDR); b++) f[b] = (char) sr.below(256);
+            else if (mode == 2) memset(f, 0, flen);
+            else f[sr.below(flen)] ^= (char) (1 << sr.below(8));
+        }
+        W.fault("SCRIBBLE");
+    }
     cur().api = "encode_cleanup";
     int crc = liberasurecode_encode_cleanup(s.desc, ed, ep);
     if (crc != 0) W.viol("C16 C13", "encode-cleanup-failed", "rc=" + std::to_string(crc));
